@@ -6,6 +6,7 @@
 #include <memory>
 #include <set>
 #include <string>
+#include <algorithm>
 #include <vector>
 
 namespace refx {
@@ -189,9 +190,15 @@ struct Outcome {
 // ------------------------------------------------------------------------------------------------ interpreter
 struct Cell { int32_t v = 0; bool def = false; };
 struct ArrRef { int base = -1; int len = 0; bool ro = false; bool valid() const { return base >= 0; } };
-struct Eff { std::vector<uint64_t> r, w; bool io = false;
-  void merge(const Eff &o) { r.insert(r.end(), o.r.begin(), o.r.end()); w.insert(w.end(), o.w.begin(), o.w.end()); io |= o.io; } };
+// read set, write set and I/O of an evaluation.  Sets are compacted as they grow; beyond 8192 distinct cells an effect becomes `wild` (conflicts with every non-empty effect):
+// that can only turn a program UNDEFINED, never make an order-dependent one look defined.
+struct Eff { std::vector<uint64_t> r, w; bool io = false, wild = false; size_t lim = 256;
+  bool any() const { return wild || io || !r.empty() || !w.empty(); }
+  void compact() { auto u = [](std::vector<uint64_t> &v) { std::sort(v.begin(), v.end()); v.erase(std::unique(v.begin(), v.end()), v.end()); }; u(r); u(w);
+                   if (r.size() + w.size() > 8192) { wild = true; r.clear(); w.clear(); } lim = std::max<size_t>(256, 2 * (r.size() + w.size())); }
+  void merge(const Eff &o) { io |= o.io; wild |= o.wild; if (wild) { r.clear(); w.clear(); return; } r.insert(r.end(), o.r.begin(), o.r.end()); w.insert(w.end(), o.w.begin(), o.w.end()); if (r.size() + w.size() > lim) compact(); } };
 inline bool conflicts(const Eff &a, const Eff &b) {
+  if ((a.wild && b.any()) || (b.wild && a.any())) return true;
   if (a.io && b.io) return true;
   for (auto x : a.w) { for (auto y : b.r) if (x == y) return true; for (auto y : b.w) if (x == y) return true; }
   for (auto x : b.w) for (auto y : a.r) if (x == y) return true;
@@ -201,6 +208,7 @@ struct Stop { Outcome::S s; std::string why; };
 
 struct Interp {
   Program pg; Outcome oc; std::string input; size_t inPos = 0;
+  int effDepth = 0;                               // > 0 while an operand / actual / subscript whose effects will be compared is being evaluated: statements then report their effects upwards
   std::vector<Cell> store;                        // globals, arrays, strings
   std::map<std::string, int> gsym;                // name -> index into pg.globals ; procs: 1000000+index
   std::vector<ArrRef> strRefs;
@@ -314,6 +322,24 @@ struct Interp {
     if (e->symKind == S_ARRAYFORMAL) { ArrRef r = f->arrs[e->slot]; if (!r.valid()) undef("array formal unbound"); return r; }
     undef("name " + e->name + " is not an array");
   }
+  // Evaluation where only zero / non-zero matters (operand of ~, and, or; condition of if / while).  The tool chain agrees with itself on this much for every value:
+  // run-time code tests with BRZ, folding tests `== 0`.  The *number* an and/or yields is only fixed when it is 0 or comes from a 0/1 operand in result position (run-time
+  // code leaves the deciding operand in areg, folding yields 0/1): otherwise the result is "some non-zero value" (ind = true), usable again only where truth matters.
+  int32_t evalTruth(Expr *e, Frame *f, Eff &ef, bool &ind) {
+    ind = false;
+    if (e->k == Expr::BIN && (e->op == T_AND || e->op == T_OR)) {
+      tick();
+      bool ia = false; int32_t a = evalTruth(e->l.get(), f, ef, ia);
+      bool at = ia || a != 0;
+      if (e->op == T_AND) { if (!at) return 0; }
+      else if (at) { if (!ia && a == 1) return 1; ind = true; return 1; }
+      bool ib = false; int32_t b = evalTruth(e->r.get(), f, ef, ib);
+      if (!ib && (b == 0 || b == 1)) return b;
+      ind = true; return 1;
+    }
+    return eval(e, f, ef);
+  }
+
   int32_t eval(Expr *e, Frame *f, Eff &ef) {
     tick();
     switch (e->k) {
@@ -334,16 +360,16 @@ struct Interp {
       Cell &c = store[a.base + i]; if (!c.def) undef("read of unassigned array element");
       ef.r.push_back(a.base + i); return c.v;
     }
-    case Expr::UN: { int32_t v = eval(e->l.get(), f, ef); if (e->op == T_MINUS) { if (v == INT32_MIN) undef("negation overflow"); return -v; } if (v != 0 && v != 1) undef("~ applied to non-boolean"); return !v; }
+    case Expr::UN: { if (e->op == T_NOT) { bool ind = false; int32_t v = evalTruth(e->l.get(), f, ef, ind); return (ind || v != 0) ? 0 : 1; }
+                     int32_t v = eval(e->l.get(), f, ef); if (v == INT32_MIN) undef("negation overflow"); return -v; }
     case Expr::BIN: {
       if (e->op == T_AND || e->op == T_OR) {
-        int32_t a = eval(e->l.get(), f, ef); if (a != 0 && a != 1) undef("logical operator on non-boolean");
-        if (e->op == T_AND ? a == 0 : a == 1) return a;
-        int32_t b = eval(e->r.get(), f, ef); if (b != 0 && b != 1) undef("logical operator on non-boolean");
-        return b;
+        bool ind = false; int32_t v = evalTruth(e, f, ef, ind);
+        if (ind) undef("value of a logical operator with a non-boolean operand used as a number (the implementation-independent part is only whether it is zero)");
+        return v;
       }
       if (e->l->hasCall && e->r->hasCall) oc.openOrderCalls = true;
-      Eff e1, e2; int32_t a = eval(e->l.get(), f, e1), b = eval(e->r.get(), f, e2);
+      effDepth++; Eff e1, e2; int32_t a = eval(e->l.get(), f, e1), b = eval(e->r.get(), f, e2); effDepth--;
       if (conflicts(e1, e2)) undef("operands of a binary operator do not commute (evaluation order is open)");
       ef.merge(e1); ef.merge(e2);
       return binop(e->op, a, b);
@@ -356,6 +382,7 @@ struct Interp {
   std::vector<int32_t> evalActuals(Expr *e, Frame *f, Eff &ef, std::vector<ArrRef> *arrs, Proc *callee) {
     size_t n = e->args.size(); std::vector<int32_t> vals(n, 0); std::vector<Eff> effs(n);
     if (arrs) arrs->assign(n, ArrRef());
+    effDepth++;
     for (size_t i = 0; i < n; i++) {
       bool wantArray = callee && callee->formals[i].kind == S_ARRAYFORMAL;
       if (callee && (callee->formals[i].kind == S_PROCFORMAL || callee->formals[i].kind == S_FUNCFORMAL)) unsup("proc/func formal");
@@ -363,6 +390,7 @@ struct Interp {
       if (wantArray) { if (a->k == Expr::SUB || !(a->k == Expr::STR || (a->k == Expr::NAME && (a->symKind == S_ARRAY || a->symKind == S_ARRAYFORMAL)))) undef("array actual expected"); (*arrs)[i] = arrayOf(a, f); }
       else { if (a->k == Expr::STR || (a->k == Expr::NAME && (a->symKind == S_ARRAY || a->symKind == S_ARRAYFORMAL))) undef("array passed where a value is expected"); vals[i] = eval(a, f, effs[i]); }
     }
+    effDepth--;
     for (size_t i = 0; i < n; i++) for (size_t j = i + 1; j < n; j++)
       if (e->args[i]->hasCall != e->args[j]->hasCall && conflicts(effs[i], effs[j])) undef("a call-free actual and a call-containing actual do not commute");
     for (auto &x : effs) ef.merge(x);
@@ -411,9 +439,9 @@ struct Interp {
     case Stmt::SKIP: return true;
     case Stmt::STOP: oc.exitValue = 0; throw Stop{Outcome::OK, "stop"};
     case Stmt::RETURN: { int32_t v = eval(s->e.get(), f, ef); f->returned = true; f->ret = v; return false; }
-    case Stmt::IF: { int32_t c = eval(s->e.get(), f, ef); if (c != 0 && c != 1) undef("condition is not boolean"); return exec(c ? s->a.get() : s->b.get(), f, ef); }
-    case Stmt::WHILE: while (true) { Eff e1; int32_t c = eval(s->e.get(), f, e1); if (c != 0 && c != 1) undef("condition is not boolean"); if (!c) return true; Eff e2; if (!exec(s->a.get(), f, e2)) return false; }
-    case Stmt::SEQ: for (auto &x : s->seq) { Eff e1; if (!exec(x.get(), f, e1)) return false; } return true;
+    case Stmt::IF: { bool ind = false; int32_t c = evalTruth(s->e.get(), f, ef, ind); return exec((ind || c != 0) ? s->a.get() : s->b.get(), f, ef); }
+    case Stmt::WHILE: while (true) { Eff e1; bool ind = false; int32_t c = evalTruth(s->e.get(), f, e1, ind); if (effDepth > 0) ef.merge(e1); if (!ind && c == 0) return true; Eff e2; bool go = exec(s->a.get(), f, e2); if (effDepth > 0) ef.merge(e2); if (!go) return false; }
+    case Stmt::SEQ: for (auto &x : s->seq) { Eff e1; bool go = exec(x.get(), f, e1); if (effDepth > 0) ef.merge(e1); if (!go) return false; } return true;
     case Stmt::CALL: {
       Expr *e = s->e.get(); int32_t rv;
       if (e->k == Expr::SYSCALL) { syscall(e, f, ef, rv); return true; }
@@ -431,7 +459,7 @@ struct Interp {
       }
       if (l->k != Expr::SUB) unsup("assignment target");
       ArrRef a = arrayOf(l, f);
-      Eff e1, e2; int32_t i = eval(l->l.get(), f, e1); int32_t v = eval(s->e.get(), f, e2);
+      effDepth++; Eff e1, e2; int32_t i = eval(l->l.get(), f, e1); int32_t v = eval(s->e.get(), f, e2); effDepth--;
       if (conflicts(e1, e2)) undef("subscript and assigned expression do not commute");
       ef.merge(e1); ef.merge(e2);
       if (i < 0 || i >= a.len) undef("subscript out of range");
